@@ -284,7 +284,10 @@ def read_generic_folds(mod: ast.Module, checker_path: Path):
         fail(find_func(chk, "visit_Tuple"), "ExprChecker.visit_Tuple (element loop)")
     tup = vt[2] == loops[True]
     tca = find_func(mod, "type_check_args")
-    fors = [s for s in strip_doc(tca.body) if isinstance(s, ast.For)]
+    def only_raises(f):
+        # a loop that only inspects the result and raises a located error changes no type
+        return all(isinstance(x, ast.If) and not x.orelse and all(isinstance(y, ast.Raise) for y in x.body) for x in f.body)
+    fors = [s for s in strip_doc(tca.body) if isinstance(s, ast.For) and not only_raises(s)]
     if len(fors) != 1 or ast.unparse(fors[0].target) != "(inp, func_inp)" or ast.unparse(fors[0].iter) != "zip(inputs, func_ty.inputs, strict=True)":
         fail(tca, "type_check_args argument loop")
     b = [ast.unparse(x) for x in fors[0].body[:2]]
